@@ -154,6 +154,143 @@ def rule_bp2(prog, results):
     return r
 
 
+def rule_bp2b(prog, results):
+    """n-ary and/or: the result folds the operation over ALL operands of the
+    BoolOp node, starting from the neutral element"""
+    r = RuleResult('R-BP-2b', 'and/or with n operands: every operand of the '
+                   'ast.BoolOp node is folded in')
+    n = 0
+    for qn, (I, res, args) in results.items():
+        for (p, v) in res:
+            if isinstance(v, Raise):
+                continue
+            ops = []
+            for (c, pol) in p.pc:
+                s_, nm = _isinst(c)
+                if pol and nm in ('And', 'Or'):
+                    ops.append(nm)
+            if not ops:
+                continue
+            n += 1
+            node = args[1] if len(args) > 1 else None
+            values = App('attr', node, Const('values'))
+            folded = False
+            init = None
+            if isinstance(v, Sym) and v.meta and v.meta[0] == 'loopvar':
+                loop = v.meta[1]
+                folded = loop.iterable == values
+                init = v.meta[2]
+                for u in v.meta[3]:
+                    # update = prev OP parse(elem)
+                    if not (isinstance(u, App) and u.op == 'binop' and
+                            any(x == loop.var for x in walk(u))):
+                        folded = False
+            want_init = (ops[0] == 'And')
+            init_ok = False
+            if isinstance(init, New) and init.args and \
+                    isinstance(init.args[0], New) and init.args[0].args:
+                c0 = init.args[0].args[0]
+                init_ok = isinstance(c0, Const) and bool(c0.v) == want_init
+            idx = sorted(set(x.args[1].v for x in walk(v)
+                             if isinstance(x, App) and x.op == 'item' and
+                             x.args[0] == values and
+                             isinstance(x.args[1], Const))) \
+                if isinstance(v, (App, Sym)) else []
+            r.inst(function=qn.split('.')[-1], operator=ops[0],
+                   folds_all_operands=folded, neutral_start=init_ok,
+                   fixed_operand_indices=idx)
+            if folded and init_ok:
+                r.ok()
+            elif not idx:
+                raise Inconclusive('R-BP-2b', 'n-ary %s is built as %r' % (
+                    ops[0], v), qn)
+            else:
+                I0 = I
+                r.fail(Finding(
+                    PROP, 'R-BP-2b',
+                    '%s:1' % qn.rsplit('.', 1)[0].replace('.', '/'),
+                    qn.replace('pyModelChecking.', ''),
+                    'nary:%s:%s:%s' % (ops[0], folded, idx),
+                    'for `x %s y %s z ...` (one ast.BoolOp with n operands) '
+                    'the parser %s: operands beyond those are silently '
+                    'dropped, so `a %s b %s c` is not a synonym of the '
+                    'chained binary operator' % (
+                        ops[0].lower(), ops[0].lower(),
+                        'uses only operands %s' % idx if idx else
+                        'does not fold over node.values from the neutral '
+                        'element', ops[0].lower(), ops[0].lower()),
+                    expected='fold over all of node.values'))
+    floor('R-BP-2b', 'BoolOp cases', n, 2)
+    return r
+
+
+def rule_bp5(prog, funcs, seeds):
+    """a variable node built by the parser goes through the ordering
+    membership check (RuntimeError for a variable outside the ordering)"""
+    r = RuleResult('R-BP-5', 'every variable node built by the parser passes '
+                   'the ordering check of OBDD.__init__')
+    oc = prog.cls('BDD.OBDD.OBDD')
+    nodec = prog.cls('BDD.BDD.BDDNode')
+    nt = prog.cls('BDD.BDD.BDDNonTerminalNode')
+    init = prog.method(oc, '__init__')
+    n = 0
+    for f in sorted(funcs + seeds, key=lambda x: x.qn):
+        I = Interp(prog, _NoInline(f), rule='R-BP-5')
+        path = I.new_path()
+        args = [Sym(a.arg) for a in f.node.args.args]
+        res = I.call_function(FRef(f), args, [], path, f.node)
+        for (p, v) in res:
+            for x in _news(v, p):
+                if x.ci is not oc or not x.args:
+                    continue
+                b = x.args[0]
+                if not (isinstance(b, New) and b.ci.is_subclass_of(nodec)
+                        and len(b.args) == 3):
+                    continue
+                n += 1
+                # simulate OBDD.__init__ with these arguments
+
+                class H(Hooks):
+                    def inline(self, I2, fi, a2):
+                        return fi is init
+                I2 = Interp(prog, H(), rule='R-BP-5')
+                p2 = I2.new_path()
+                me = p2.alloc('inst')
+                p2.heap[me.oid].ci = oc
+                node_sym = Sym('varnode', ('inst', nt))
+                a2 = [me, node_sym] + [Sym('ordering', ('inst', prog.cls(
+                    'BDD.ordering.Ordering')))] + list(x.args[2:])
+                res2 = I2.call_function(FRef(init), a2, list(x.kw), p2,
+                                        init.node)
+                unchecked = []
+                for (q, w) in res2:
+                    if isinstance(w, Raise):
+                        continue
+                    chk = [e for e in q.log if e.kind in ('call', 'mcall')
+                           and (e.name == 'respect_ordering' or (
+                               isinstance(e.target, FRef) and
+                               e.target.fi.name == 'respect_ordering'))]
+                    if not chk:
+                        unchecked.append(q)
+                r.inst(function=f.short(), construction=repr(x)[:120],
+                       membership_checked=not unchecked)
+                if unchecked:
+                    r.fail(Finding(
+                        PROP, 'R-BP-5', f.where(), f.short(),
+                        'unchecked-variable:%s' % (sorted(x.kw),),
+                        '%s builds the OBDD of a variable with %s: '
+                        'OBDD.__init__ then skips respect_ordering, the '
+                        'only place where a variable outside the ordering '
+                        'raises RuntimeError (OBDD(\'b\', [\'a\']) is '
+                        'accepted)' % (f.short(), dict(
+                            (k, repr(val)) for k, val in x.kw)),
+                        expected='ordering membership checked'))
+                else:
+                    r.ok()
+    floor('R-BP-5', 'variable-node constructions', n, 1)
+    return r
+
+
 def _operation(v):
     if isinstance(v, App) and v.op == 'binop':
         return v.args[0].v
@@ -505,8 +642,10 @@ def run(prog, tier, seed):
     seeds, funcs = parser_functions(prog)
     r1, results = rule_bp1(prog, funcs)
     r2 = rule_bp2(prog, results)
+    r2b = rule_bp2b(prog, results)
     r3 = rule_bp3(prog, funcs, seeds)
     r4 = rule_bp4(prog)
+    r5 = rule_bp5(prog, funcs, seeds)
     expl = ('The expression parser of the OBDD module is interpreted '
             'abstractly per function: every path returns an OBDD-valued '
             'expression or raises SyntaxError (no fall-through None); the '
@@ -522,4 +661,4 @@ def run(prog, tier, seed):
     assumptions = ['ast field types: Name.id and arg.arg are str; id() is '
                    'int', 'Python\'s ast.parse is the parser the library '
                    'itself uses']
-    return [r1, r2, r3, r4], expl, assumptions, {}
+    return [r1, r2, r2b, r3, r4, r5], expl, assumptions, {}
